@@ -28,6 +28,9 @@ package datasource
 //@   ensures true
 //@ func DeepEqual
 //@   prop C09
+//@   let xi := ite(isT(x, int64), x.(int64), 0)
+//@   let yi := ite(isT(y, int64), y.(int64), 0)
+//@   ensures integers-are-compared-as-integers: x != nil && y != nil && isT(x, int64) && isT(y, int64) ==> result == (x.(int64) == y.(int64))
 //@   ensures text-is-compared-as-text: x != nil && y != nil && isT(x, string) && isT(y, string) ==> result == (x.(string) == y.(string))
 //@   may_panic
 
